@@ -1916,6 +1916,20 @@ pub(crate) fn coerce_numeric_types(left: &ArrowDataType, right: &ArrowDataType) 
     use ArrowDataType::*;
 
     match (left, right) {
+        // Operands of one numeric type keep it, as the executor's own coercion
+        // does (`coerce_arrays` leaves equal types alone): INTEGER + INTEGER is
+        // computed as Int32, and a plan that declared it Int64 made consumers
+        // that trust the declared type (scalar MIN/MAX, result schemas) read
+        // the Int32 values as NULL.
+        (a, b)
+            if a == b
+                && matches!(
+                    a,
+                    Int8 | Int16 | Int32 | Int64 | UInt8 | UInt16 | UInt32 | UInt64 | Float32
+                ) =>
+        {
+            a.clone()
+        }
         (Float64, _) | (_, Float64) => Float64,
         (Float32, _) | (_, Float32) => Float64,
         (Decimal128(_, _), _) | (_, Decimal128(_, _)) => Decimal128(38, 10),
